@@ -32,3 +32,6 @@ claim("C07", "model_checking", "bounded-exhaustive enumeration of doc-value shap
 claim("C05", "model_checking", "explicit-state BFS to a fixpoint over the real PostingsIterator's private state, every transition compared with a reference model",
       "For every postings list of POST(N) x chunk modes (general and 1-hit), every exclusion subset (+ foreign doc) or ReplaceActual subset and all 8 flag combinations, the state graph of the real iterator under Next/Advance(d) (all non-decreasing targets) is explored to a fixpoint: all call sequences of any length, not a depth cut. Each transition's document, frequency, norm and locations are compared with the model; nil stays nil; Count() is checked. The state abstraction is cross-validated against path mode.",
       TRUST + " The iterator state dump (verif hook) lists every field a method reads and refuses to run if the struct gains a field.", "DESIGN.md 5 C05", E2)
+claim("C17", "model_checking", "bounded-exhaustive metamorphic enumeration: every hierarchical bracketing of every small segment list on the real merger, results compared with each other",
+      "For every list of 3 (<=2 docs each) and 4 (<=1 doc each) segments over the kinds alphabet, every deletion set and every order-preserving hierarchical grouping, with deletions applied early or translated through DocumentNumbers() and applied late, the loaded results are pairwise observationally identical including statistics; merge([s]) is the identity for built and merged s. No reference model is involved, so the check also guards the model used by C02.",
+      "Trusted base: harness observer, Go toolchain, roaring/vellum/zstd. Bounded: k<=4 segments, <=2 docs per segment.", "DESIGN.md 5 C17", E1 + " / " + E2)
